@@ -303,3 +303,46 @@ func strictOrder(v ssa.Value) (earlier, later ssa.Value, call *ssa.Call, ok bool
 	}
 	return nil, nil, nil, false
 }
+
+// localFieldStore reports whether st assigns field `field` of a function-local value of the
+// named struct type - whatever the variable is called, and also when the value is first
+// built as a composite literal.
+func localFieldStore(st *ssa.Store, typeName, field string) bool {
+	fa, ok := st.Addr.(*ssa.FieldAddr)
+	if !ok || typeNameOf(fa.X.Type()) != typeName || fieldNameOf(fa.X.Type(), fa.Field) != field {
+		return false
+	}
+	_, isLocal := rootAlloc(fa.X).(*ssa.Alloc)
+	return isLocal
+}
+
+// inLoopOf: blk belongs to the natural loop with the given header (dominated by the header and
+// able to reach it again).
+func inLoopOf(header, blk *ssa.BasicBlock) bool {
+	if !header.Dominates(blk) {
+		return false
+	}
+	seen := map[*ssa.BasicBlock]bool{}
+	var walk func(b *ssa.BasicBlock) bool
+	walk = func(b *ssa.BasicBlock) bool {
+		if b == header {
+			return true
+		}
+		if seen[b] || !header.Dominates(b) {
+			return false
+		}
+		seen[b] = true
+		for _, s := range b.Succs {
+			if walk(s) {
+				return true
+			}
+		}
+		return false
+	}
+	for _, s := range blk.Succs {
+		if walk(s) {
+			return true
+		}
+	}
+	return false
+}
